@@ -70,7 +70,7 @@ def _mpi_funcs_inl(prog):
     for f in funcs:
         if f.parent is not None:
             continue
-        g = inlined(prog, f, keep=keep, only={h.name for h in has_mpi} - keep)
+        g = inlined(prog, f, keep=keep, only={h.name for h in has_mpi} - keep, desugar=True)
         expanded_names |= set(getattr(g, "inlined_helpers", []))
         out.append(g)
     for f in funcs:
@@ -286,6 +286,7 @@ def rule_r2(prog, res) -> None:
     # each worker answers every task: recv(tag a) loop body sends exactly one result
     wt = prog.func("_mpi_worker_task")
     res.touch(wt)
+    wt = next((g for g in _mpi_funcs_inl(prog) if g.name == "_mpi_worker_task"), wt)  # communicator methods bound to a local / partial expanded
     cfg = cfg_of(wt.node)
     calls_wt = _mpi_calls(prog, wt)
 
@@ -612,7 +613,7 @@ def rule_r5(prog, res) -> None:
     rt0 = prog.func("_mpi_root_task")
     from ..inline import inlined
 
-    rt = inlined(prog, rt0, only={h.name for h in _mpi_funcs(prog) if h.module is rt0.module and h.name.startswith("_mpi") and h is not rt0} - {"_mpi_worker_task", "_mpi_iter_unordered"})
+    rt = inlined(prog, rt0, only={h.name for h in _mpi_funcs(prog) if h.module is rt0.module and h.name.startswith("_mpi") and h is not rt0} - {"_mpi_worker_task", "_mpi_iter_unordered"}, desugar=True)
     res.touch(rt)
     fn = rt.node
     pm = parents_map(fn)
@@ -1037,6 +1038,7 @@ def rule_r8(prog, res) -> None:
     # (b) the worker loop is entered by every non-root rank
     wt = prog.func("_mpi_worker_task")
     rt = prog.func("_mpi_root_task")
+    rt = next((g for g in _mpi_funcs_inl(prog) if g.name == "_mpi_root_task"), rt)  # closures expanded, `sum(f(rank) for rank in …)` spelled as the loop it is
     first_pass = [x for x in walk_no_nested(rt.node) if isinstance(x, ast.For) and isinstance(x.iter, ast.Call) and isinstance(x.iter.func, ast.Name) and x.iter.func.id == "range"]
     every_rank = any(len(x.iter.args) == 2 and unparse(x.iter.args[0]) == "1" and "get_size" in unparse(x.iter.args[1]) or "Get_size" in unparse(x.iter) for x in first_pass)
     if not every_rank:
